@@ -7,6 +7,7 @@ COMMON_TB = [
     "modelling assumption: float64 arithmetic of the kernels is exact on the domain D (coordinates k*2^-s, |k| <= 2^23); validated by the correspondence stream, not proved",
     "hand-written Gallina mirrors of the Go functions (modelled, not verified); Go compiler/runtime outside the model",
     "tools/gen_consts.py: regular-expression translator of the source's numeric constants into kernel-checked goals (model constant = source value), run in every check",
+    "tools/gotrans (where the evidence lists functions_tied_by_translation): Go -> Gallina translator of the straight-line kernels (go/parser + symbolic execution); its reading of the Go subset and the mapping of Segment.Raycast to the model's raycast_on are trusted, the generated equalities 'translated function = model function' are kernel-checked for all inputs on every run",
 ]
 
 import classes
@@ -16,6 +17,7 @@ def seg_class(line):
     return None
 
 PROPS["C19"] = dict(
+    translated_functions=['Segment.Rect', 'Segment.CollinearPoint', 'Segment.ContainsPoint', 'Segment.ContainsSegment', 'Segment.IntersectsSegment'],
     streams=["C19"],
     kernel_cases=400,
     rule="exhaustive (segment,point) on {0..L}^2 and (segment,segment) on {0..LS}^2 (L=LS=4 quick; L=6, LS=5 thorough) plus seeded random cases on dyadic grids 2^-s, s<=3, |k|<=2^23 with forced level/collinear/nested/zero-length/touching families; non-trivial = not decided by the y-range/bounding-box pre-test; distinct = distinct case lines (hashed)",
@@ -34,6 +36,7 @@ PROPS["C18"] = dict(
 )
 
 PROPS["C01"] = dict(
+    translated_functions=['Rect.ContainsPoint', 'Rect.IntersectsPoint', 'Segment.Rect', 'Rect.IntersectsRect', 'Point.ContainsPoint'],
     streams=["C01"],
     kernel_cases=300,
     rule="exhaustive: all vertex sequences of length 3 (and 1/16 sample of length 4; thorough: all of length 4 and a sample of length 5) on {0..3}^2 against all 49 lattice and half-lattice points; random rings (raw sequences, star polygons with 0-3 holes, long rings of 64-464 (thorough up to 5000) vertices, small-lattice rings with repeats) with probe points biased to vertices/edge midpoints/vertex levels, under index configurations {none, rtree/1, quadtree/1, rtree/64, quadtree/64}; rectangles and lines likewise; each case reports 17 (polygon) or 9 (rect, line) implementation answers: geometry level and object level (Point, SimplePoint, Feature wrappers), all compared with the one model answer; ring-level (hit, edge index) through the verif hook without index. non-trivial: all (every case reaches the membership code); distinct = distinct case lines",
@@ -48,6 +51,7 @@ PAIR_RULE = ("valid shapes only (simple rings checked exactly, holes strictly in
   "grids 2^-s; non-trivial: all; distinct = distinct case lines")
 
 PROPS["C02"] = dict(
+    translated_functions=['Rect.ContainsPoint', 'Rect.IntersectsPoint', 'Rect.IntersectsRect', 'Rect.Area', 'Segment.Rect', 'Segment.IntersectsSegment', 'Point.ContainsPoint', 'Point.IntersectsPoint', 'Point.IntersectsRect'],
     streams=["C02"], kernel_cases=200, timeout=1500,
     rule=PAIR_RULE + "; implementation answers A.Intersects(B), B.Intersects(A) compared with the Coq model and with the arrangement oracle meets_x",
     trusted_base=COMMON_TB + ["the executable arrangement oracle coq/PairSpec.v (meets_x) as ground truth for polygon pairs: its completeness is not proved (polygonal Jordan curve theorem, DESIGN §9)"],
@@ -55,6 +59,7 @@ PROPS["C02"] = dict(
     partial=["ring x segment, ring x line string and ring x ring (polygons without holes) are proved exact as point sets and symmetric (Jordan.v, JordanQ.v, JordanRing.v); rect x line and rect x polygon-without-holes likewise (JordanRect.v); exactness of pairs involving holes is explored against the oracle, not proved"],
 )
 PROPS["C03"] = dict(
+    translated_functions=['Rect.ContainsPoint', 'Rect.ContainsRect', 'Rect.IntersectsRect', 'Segment.Rect', 'Segment.IntersectsSegment', 'Segment.ContainsSegment', 'Segment.CollinearPoint', 'Point.ContainsPoint', 'Point.ContainsRect'],
     streams=["C03"], kernel_cases=200, timeout=1500, classify=classes.classify_c03,
     rule=PAIR_RULE + "; implementation answers A.Contains(B), B.Contains(A) compared with the Coq model and with the arrangement oracle covers_x",
     trusted_base=COMMON_TB + ["the executable arrangement oracle coq/PairSpec.v (covers_x) as ground truth: its completeness is not proved (DESIGN §9)"],
@@ -62,6 +67,7 @@ PROPS["C03"] = dict(
     partial=["strict containment of a segment by a non-convex ring is proved exact as a point-set statement (JordanQ.v); containment with boundary contact for concave rings / holes is explored against the oracle, not proved; the pinned tree violates it in contact configurations (KNOWN_FINDINGS.txt)"],
 )
 PROPS["C12"] = dict(
+    translated_functions=['Segment.Rect', 'Segment.CollinearPoint', 'Segment.ContainsPoint', 'Segment.ContainsSegment', 'Segment.IntersectsSegment', 'Rect.ContainsPoint', 'Rect.IntersectsPoint', 'Rect.ContainsRect', 'Rect.IntersectsRect', 'Rect.Area', 'Point.ContainsPoint', 'Point.IntersectsPoint', 'Point.IntersectsRect', 'Point.ContainsRect'],
     streams=["C12"], kernel_cases=200, timeout=1500, classify=classes.classify_c12,
     rule=PAIR_RULE + "; every pair re-run under translation, Move, scaling by 2^k, x->-x, y->-y, transpose, start-vertex rotation (first, random, last), reversal, closing vertex toggled; the four answers must equal those of the untransformed pair",
     trusted_base=COMMON_TB,
@@ -70,6 +76,7 @@ PROPS["C12"] = dict(
 )
 
 PROPS["C04"] = dict(
+    translated_functions=['Segment.Rect', 'Rect.IntersectsRect'],
     streams=["C04"], kernel_cases=120, timeout=1500,
     rule="series of 0-200 points (thorough: up to 70,000 so that 2- and 4-byte item widths, multi-level R-tree nodes and depth-16 overflow buckets occur) in clustered / collinear / all-identical / zero-extent / random layouts, open and closed, index kinds none, R-tree, quadtree (MinPoints 1); (i) Series.Index() bytes compared byte for byte with the model's bytes; (ii) Search with random and boundary query rectangles (on quadtree mid-lines, +-Inf bounds) and a callback that stops at the k-th call: number of callbacks, sorted reported indices and callback order compared with the model, reported set compared with the brute-force specification; (iii) the same after Move. non-trivial = at least one segment; distinct = distinct case lines",
     trusted_base=COMMON_TB + ["float64 byte layout of the R-tree node boxes: IndexExec.f64_bits (normal finite values k*2^-s) — exercised byte-for-byte by the correspondence, not proved equal to IEEE-754",
@@ -81,6 +88,7 @@ PROPS["C04"] = dict(
 OBJ_TB = COMMON_TB + ["object trees are built through the public constructors (NewPoint ... NewFeatureCollection) from an integer encoding; the child-index threshold is set through the verif hook VerifSetChildIndex (re-runs parseInitRectIndex)",
                       "github.com/tidwall/rtree (child index) is outside the model: the model's Search is the linear scan, the correspondence runs thresholds 0/1/2/64"]
 PROPS["C09"] = dict(
+    translated_functions=['unionRects', 'Rect.ContainsPoint', 'Rect.IntersectsPoint', 'Rect.ContainsRect', 'Rect.IntersectsRect', 'Rect.Area', 'Point.ContainsPoint', 'Point.IntersectsPoint', 'Point.IntersectsRect', 'Point.ContainsRect'],
     streams=["C09"], kernel_cases=150, timeout=1500, classify=classes.classify_c09,
     rule="random object trees (depth <= 2; 11 kinds: Point, SimplePoint, Rect, LineString, Polygon, Feature, 5 collection kinds, with 0-4 or 60-70 children, empty children) whose leaves are constructed in contact with a common valid polygon; all ordered pairs; 4 geometry-index x 4 child-index configurations; per pair: 6 predicate answers + 8 algebraic-law flags (within=contains swapped, intersects symmetric, contains=>intersects, contains=>rect covers, intersects=>rects meet, self containment, Feature transparency, SimplePoint/Rect representation transparency) compared with the Coq model; answers compared with the composed point-set oracle when no polygon leaf is in boundary contact (where the C03 findings live). non-trivial: all; distinct = distinct case lines",
     trusted_base=OBJ_TB + ["executable oracle PairSpec.meets_x / covers_x at the leaves (completeness not proved)"],
@@ -88,6 +96,7 @@ PROPS["C09"] = dict(
     partial=["contains => A's rectangle covers B's is proved (CoversBoxes.v), hence also rectangles meet; intersects symmetry is proved at the Geometry interface and at the object level (through Features, collections, nesting: ObjSym.o_intersects_sym) for everything except a polygon with holes facing a polygon with holes, and a Rect used as a ring is proved to be the ring of its five corners (RR_as_RS); contains => intersects, self containment, symmetry for hole pairs and Circles, and rect-as-polygon for the Rect-specific fast paths are law flags"],
 )
 PROPS["C10"] = dict(
+    translated_functions=['unionRects', 'Rect.IntersectsRect'],
     streams=["C10"], kernel_cases=150, timeout=1500, classify=classes.classify_c09,
     rule="random collections of the five kinds (0-4 or 60-70 children, nested collections, empty and duplicate children, features) against probe objects of all kinds, query rectangles and early-stop counts; per case: 5 answers, 7 composition-law flags computed from the children's OWN implementation answers (intersects = some child x some part, contains = every part in some child, within = every child within, empty, rect = union, point count = sum, children order), child Search results, and a flag that thresholds 0, 1, 2, 64 of the child index give identical outputs. non-trivial: all; distinct = distinct case lines",
     trusted_base=OBJ_TB,
@@ -95,6 +104,7 @@ PROPS["C10"] = dict(
     partial=[],
 )
 PROPS["C11"] = dict(
+    translated_functions=['unionRects'],
     streams=["C11"], kernel_cases=300, timeout=1500,
     rule="random object trees of 11 kinds with coordinates on, just inside and just outside the +-180/+-90 limits and small lattice coordinates, 0-6 positions per line, rings with 0-8 positions closed or not, empties mixed with non-empties, single-child collections; outputs Empty, Valid, Rect, 2*Center, NumPoints compared with the model and with the direct specification (tight box over all occupied positions, every position in range). non-trivial: all; distinct = distinct case lines",
     trusted_base=OBJ_TB,
